@@ -71,6 +71,7 @@ def run(ctx):
         if stats["by_kind"].get(k, 0) == 0:
             raise vlib.ToolError("no artefact of kind %s in the corpus" % k)
     ctx.cov["m3_ids"] = stats["ids"]
+    ctx.cov["m3_lookups_by_hash"] = stats["finds"]
     ctx.cov["m3_by_kind"] = stats["by_kind"]
     ctx.cov["m3_rewrites"] = {k: stats[k] for k in ("rewrites_tried", "rewrites_unchanged", "rewrites_decoded", "by_focus")}
     ctx.cov["m3_minimal_artefact_blocks"] = {"tried": stats["injected_tried"], "decoded": stats["injected_decoded"]}
@@ -88,17 +89,18 @@ def run(ctx):
         ok, m, total, first = ctx.tlc_trace(SPEC_DIR, "TraceIdentity", "TraceIdentity.cfg", p, count=(rounds == 0), timeout=1700)
         if ok:
             break
-        if first.get("ev") != "id":
+        if first.get("ev") not in ("id", "find"):
             raise vlib.ToolError("harness fact rejected by the trace spec: %s" % json.dumps(first))
-        noncanon = "~" in first.get("at", "")
-        key = "%s/%s/%s" % (first["kind"], first["api"].replace(" ", "_"), "re-encoded" if noncanon else ("minimal-artefact" if "+" in first.get("at", "") else "as-is"))
+        at = first.get("at", "")
+        cls = "re-encoded" if "~" in at else (at.split("+", 1)[1].split("@", 1)[0] if "+" in at else "as-is")
+        key = "%s/%s/%s" % (first["kind"], first["api"].replace(" ", "_"), cls)
         ctx.report(key, "identifier reported for %s is not the hash of the wire bytes (with the %s prefix rule): %s"
                    % (first.get("at"), first["kind"], json.dumps(first)), payload={"event": first})
         # resume with the rest of the trace: restart at the enclosing block (drop the offending event)
         start = max(i for i in range(m + 1) if cur[i]["ev"] == "reset")
         cur = renumber(cur[start:m] + cur[m + 1:])
         rounds += 1
-        if rounds >= 6:
+        if rounds >= 16:
             break
     nblocks = sum(1 for e in verdict if e["ev"] == "reset")
     ctx.cov["traces_validated_against_impl"] += nblocks
